@@ -6,6 +6,21 @@ From Oras Require Import Base.Prelude Base.Regex Generated.GC20 Generated.GC13 M
   Model.Registry Model.RemoteClient Model.RemoteSpec Proofs.Reference.
 Require Import Lia.
 
+(* C20's lemmas, at the instance "every digest algorithm is available" (Model/Registry.v) *)
+Lemma c13_repo_parse_result vr breg brepo s r :
+  repo_parse vr breg brepo s = Some r ->
+  r_registry r = breg /\ r_repository r = brepo /\ r_reference r <> [] /\
+  (valid_tag (r_reference r) = true \/ valid_digest (r_reference r) = true).
+Proof. exact (repo_parse_result_in_base all_algs vr breg brepo s r). Qed.
+
+Lemma c13_repo_parse_digest vr breg brepo d :
+  valid_digest d = true -> repo_parse vr breg brepo d = Some (mkRef breg brepo d).
+Proof. exact (Proofs.Reference.repo_parse_digest all_algs vr breg brepo d). Qed.
+
+Lemma c13_repo_parse_tag vr breg brepo t :
+  valid_tag t = true -> repo_parse vr breg brepo t = Some (mkRef breg brepo t).
+Proof. exact (Proofs.Reference.repo_parse_tag all_algs vr breg brepo t). Qed.
+
 Ltac break_in H :=
   match type of H with
   | context [match ?x with _ => _ end] => destruct x eqn:?
@@ -90,6 +105,7 @@ Section ClientFacts.
   Variable subject_of : str -> option (option desc).
   Variables main other : str.
   Variable user_mts : list str.
+  Variable limit : N.
   Variable srv : Type.
   Variable exch : srv -> request -> srv * response.
 
@@ -101,15 +117,15 @@ Section ClientFacts.
   Lemma resolve_ref_valid s rf : resolve_ref main s = Some rf -> valid_ref rf = true.
   Proof.
     unfold resolve_ref. destruct (repo_parse _ _ _ s) as [r|] eqn:E; [|discriminate].
-    intro X. injection X as <-. apply repo_parse_result_in_base in E as (_ & _ & _ & [V|V]);
+    intro X. injection X as <-. apply c13_repo_parse_result in E as (_ & _ & _ & [V|V]);
       unfold valid_ref; rewrite V; auto using orb_true_r.
   Qed.
 
   Lemma resolve_ref_digest d : valid_digest d = true -> resolve_ref main d = Some d.
-  Proof. intro V. unfold resolve_ref. now rewrite repo_parse_digest. Qed.
+  Proof. intro V. unfold resolve_ref. now rewrite c13_repo_parse_digest. Qed.
 
   Lemma resolve_ref_tag t : valid_tag t = true -> resolve_ref main t = Some t.
-  Proof. intro V. unfold resolve_ref. now rewrite repo_parse_tag. Qed.
+  Proof. intro V. unfold resolve_ref. now rewrite c13_repo_parse_tag. Qed.
 
   (* ---- allowed, function by function ---- *)
 
@@ -213,7 +229,7 @@ Section ClientFacts.
   Qed.
 
   Lemma man_resolve_allowed s rs s' t res :
-    man_resolve H parse_mt main user_mts srv exch s rs = (s', t, res) -> all_allowed t.
+    man_resolve H parse_mt main user_mts limit srv exch s rs = (s', t, res) -> all_allowed t.
   Proof.
     unfold man_resolve. destruct (resolve_ref main rs) as [rf|] eqn:ER; [|intro X; inv_pair X; auto with c13].
     apply resolve_ref_valid in ER.
@@ -221,7 +237,7 @@ Section ClientFacts.
   Qed.
 
   Lemma man_fetchref_allowed s rs s' t res :
-    man_fetchref H parse_mt main user_mts srv exch s rs = (s', t, res) -> all_allowed t.
+    man_fetchref H parse_mt main user_mts limit srv exch s rs = (s', t, res) -> all_allowed t.
   Proof.
     unfold man_fetchref. destruct (resolve_ref main rs) as [rf|] eqn:ER; [|intro X; inv_pair X; auto with c13].
     pose proof (resolve_ref_valid _ _ ER) as V.
@@ -230,7 +246,7 @@ Section ClientFacts.
     destruct (exch s _) as [s1 r].
     destruct (r_status r =? 200); [|intro X; inv_pair X; auto with c13].
     destruct (r_clen r); [intro X; inv_pair X; auto with c13|].
-    destruct (man_resolve _ _ _ _ _ _ s1 rs) as [[s2 t2] res2] eqn:E.
+    destruct (man_resolve _ _ _ _ _ _ _ s1 rs) as [[s2 t2] res2] eqn:E.
     apply man_resolve_allowed in E. intro X; inv_pair X. auto with c13.
   Qed.
 
@@ -251,15 +267,16 @@ Section ClientFacts.
       by auto using allowed_referrers, zero_digest_valid.
     destruct (exch s _) as [s1 r].
     destruct (r_status r =? 200); [intro X; inv_pair X; auto with c13|].
-    destruct (r_status r =? 404); intro X; inv_pair X; auto with c13.
+    destruct (r_status r =? 404); [destruct (str_eqb _ _)|]; intro X; inv_pair X; auto with c13.
   Qed.
 
   Lemma man_push_allowed s rst d c rf s' rst' t res :
     valid_ref rf = true -> d_mt d <> [] ->
-    man_push H subject_of main srv exch s rst d c rf = (s', rst', t, res) -> all_allowed t.
+    man_push H subject_of main limit srv exch s rst d c rf = (s', rst', t, res) -> all_allowed t.
   Proof.
     intros Hr Hm. unfold man_push.
     destruct (indexable (d_mt d) && negb (rs_supported rst)); [|apply man_put_allowed; auto].
+    destruct (limit <? d_sz d); [intro X; inv_pair X; auto with c13|].
     destruct (negb (len c =? d_sz d) || negb (str_eqb (H c) (d_dg d))); [intro X; inv_pair X; auto with c13|].
     destruct (man_put _ _ _ s rst d c true rf) as [[[s1 rst1] t1] res1] eqn:E.
     apply man_put_allowed in E; auto.
@@ -270,11 +287,12 @@ Section ClientFacts.
 
   Lemma man_delete_allowed s rst d s' rst' t res :
     valid_digest (d_dg d) = true ->
-    man_delete H parse_mt subject_of main srv exch s rst d = (s', rst', t, res) -> all_allowed t.
+    man_delete H parse_mt subject_of main limit srv exch s rst d = (s', rst', t, res) -> all_allowed t.
   Proof.
     intros Hd. unfold man_delete.
     destruct (indexable_del (d_mt d) && negb (rs_supported rst)).
-    - destruct (man_fetch _ _ _ _ s d) as [[s1 t1] res1] eqn:E1.
+    - destruct (limit <? d_sz d); [intro X; inv_pair X; auto with c13|].
+      destruct (man_fetch _ _ _ _ s d) as [[s1 t1] res1] eqn:E1.
       apply man_fetch_allowed in E1; auto.
       destruct res1; try (intro X; inv_pair X; exact E1).
       destruct (negb (len c =? d_sz d) || negb (str_eqb (H c) (d_dg d))); [intro X; inv_pair X; exact E1|].
@@ -314,11 +332,11 @@ Section ClientFacts.
       destruct (exch s _) as [s1 r];
       (destruct (r_status r =? 200);
        [destruct (str_eqb _ _); intro X; inv_pair X; auto with c13|]);
-      destruct (r_status r =? 404); intro X; inv_pair X; auto with c13.
+      (destruct (r_status r =? 404); [destruct (str_eqb (r_body r) name_unknown)|]); intro X; inv_pair X; auto with c13.
   Qed.
 
-  Notation run_op' := (run_op H parse_mt subject_of main other user_mts srv exch).
-  Notation run_ops' := (run_ops H parse_mt subject_of main other user_mts srv exch).
+  Notation run_op' := (run_op H parse_mt subject_of main other user_mts limit srv exch).
+  Notation run_ops' := (run_ops H parse_mt subject_of main other user_mts limit srv exch).
 
   Lemma lift_eq {A} (x : A * trace * result) rst a rst' t res :
     lift A x rst = (a, rst', t, res) -> exists a0, x = (a0, t, res).
@@ -335,7 +353,7 @@ Section ClientFacts.
       + eapply man_fetch_allowed; eauto.
       + eapply blob_fetch_allowed with (repo := main); eauto.
     - destruct Hok as [Hd Hm]. destruct (is_manifest user_mts d).
-      + destruct (man_resolve _ _ _ _ _ _ s (d_dg d)) as [[s1 t1] r1] eqn:E.
+      + destruct (man_resolve _ _ _ _ _ _ _ s (d_dg d)) as [[s1 t1] r1] eqn:E.
         apply man_resolve_allowed in E. intro X; inv_pair X. exact E.
       + destruct (blob_resolve _ _ _ _ s (d_dg d)) as [[s1 t1] r1] eqn:E.
         apply blob_resolve_allowed in E. intro X; inv_pair X. exact E.
@@ -394,6 +412,7 @@ Section Consistency.
   Variable parse_mt : str -> option str.
   Variables main other : str.
   Variable user_mts : list str.
+  Variable limit : N.
   Variable srv : Type.
   Variable exch : srv -> request -> srv * response.
 
@@ -438,11 +457,12 @@ Section Consistency.
      agrees with a digest reference; without a digest header it is the client's
      digest (HEAD, digest reference only) or the digest of the body (GET) *)
   Theorem gen_desc_consistent r rf hd d :
-    gen_desc H parse_mt r rf hd = Some d ->
+    gen_desc H parse_mt limit r rf hd = Some d ->
     parse_mt (nstr (r_ctype r)) = Some (d_mt d) /\ r_clen r = Some (d_sz d) /\
     (valid_digest rf = true -> d_dg d = rf) /\
     match nstr (r_dig r) with
-    | [] => if hd then d_dg d = rf /\ valid_digest rf = true else d_dg d = H (r_body r)
+    | [] => if hd then d_dg d = rf /\ valid_digest rf = true
+            else d_dg d = H (r_body r) /\ (limit <? len (r_body r)) = false
     | sd => sd = d_dg d /\ valid_digest sd = true
     end.
   Proof.
@@ -455,9 +475,12 @@ Section Consistency.
         * destruct rf as [|y rf]; [discriminate|].
           rewrite str_eqb_refl. cbn [negb]. intro X; injection X as <-. cbn. auto.
         * destruct rf as [|y rf]; [discriminate|].
+          destruct (limit <? len (r_body r)) eqn:El; [discriminate|].
           destruct (str_eqb (y :: rf) (H (r_body r))) eqn:Eq; cbn [negb]; [|discriminate].
           apply str_eqb_spec in Eq. intro X; injection X as <-. cbn. auto.
-      + destruct hd; [discriminate|]. intro X; injection X as <-. cbn.
+      + destruct hd; [discriminate|].
+        destruct (limit <? len (r_body r)) eqn:El; [discriminate|].
+        intro X; injection X as <-. cbn.
         repeat split; auto. discriminate.
     - destruct (valid_digest (x :: sd)) eqn:Vs; cbn [negb]; [|discriminate].
       destruct (valid_digest rf) eqn:Vr.
@@ -480,15 +503,15 @@ Section Consistency.
   (* Resolve / FetchReference: a descriptor is returned only for a valid reference,
      from a 200, and it is consistent with the (last) response and the reference *)
   Theorem man_resolve_consistent s rs s' t d :
-    man_resolve H parse_mt main user_mts srv exch s rs = (s', t, RDesc d) ->
+    man_resolve H parse_mt main user_mts limit srv exch s rs = (s', t, RDesc d) ->
     exists rf q r, resolve_ref main rs = Some rf /\ t = [(q, r)] /\ q_ep q = EManifest rf /\
-                   r_status r = 200 /\ gen_desc H parse_mt r rf true = Some d.
+                   r_status r = 200 /\ gen_desc H parse_mt limit r rf true = Some d.
   Proof.
     unfold man_resolve. destruct (resolve_ref main rs) as [rf|]; [|discriminate].
     destruct (exch s _) as [s1 r]. intro X. injection X as _ <- X.
     eexists rf, _, r. split; [reflexivity|]. split; [reflexivity|]. split; [reflexivity|].
     destruct (r_status r =? 200) eqn:Es.
-    - apply N.eqb_eq in Es. destruct (gen_desc H parse_mt r rf true); [|discriminate].
+    - apply N.eqb_eq in Es. destruct (gen_desc H parse_mt limit r rf true); [|discriminate].
       injection X as <-. auto.
     - destruct (r_status r =? 404); discriminate.
   Qed.
@@ -509,7 +532,7 @@ Section Consistency.
   Qed.
 
   Lemma man_resolve_shape s rs s' t res :
-    man_resolve H parse_mt main user_mts srv exch s rs = (s', t, res) ->
+    man_resolve H parse_mt main user_mts limit srv exch s rs = (s', t, res) ->
     (exists d, res = RDesc d) \/ (exists e, res = RErr e).
   Proof.
     unfold man_resolve. destruct (resolve_ref main rs) as [rf|]; [|intro X; injection X as _ _ <-; eauto].
@@ -519,27 +542,68 @@ Section Consistency.
   Qed.
 
   Theorem man_fetchref_consistent s rs s' t d c :
-    man_fetchref H parse_mt main user_mts srv exch s rs = (s', t, RDescBytes d c) ->
+    man_fetchref H parse_mt main user_mts limit srv exch s rs = (s', t, RDescBytes d c) ->
     exists rf q r rest, resolve_ref main rs = Some rf /\ t = (q, r) :: rest /\
       r_status r = 200 /\ c = r_body r /\
-      ((rest = [] /\ gen_desc H parse_mt r rf false = Some d) \/
-       (r_clen r = None /\ exists q2 r2, rest = [(q2, r2)] /\ r_status r2 = 200 /\
-                                         gen_desc H parse_mt r2 rf true = Some d)).
+      ((rest = [] /\ gen_desc H parse_mt limit r rf false = Some d) \/
+       (r_clen r = None /\ dig_consistent r (d_dg d) /\
+        exists q2 r2, rest = [(q2, r2)] /\ r_status r2 = 200 /\
+                      gen_desc H parse_mt limit r2 rf true = Some d)).
   Proof.
     unfold man_fetchref. destruct (resolve_ref main rs) as [rf|] eqn:ER; [|discriminate].
     destruct (exch s _) as [s1 r].
     destruct (r_status r =? 200) eqn:Es.
     - apply N.eqb_eq in Es. destruct (r_clen r) as [n|] eqn:Ec.
       + intro X. injection X as _ <- X. eexists rf, _, r, []. repeat (split; [reflexivity|]).
-        destruct (gen_desc H parse_mt r rf false); [|discriminate]. injection X as <- <-. auto.
-      + destruct (man_resolve _ _ _ _ _ _ s1 rs) as [[s2 t2] res2] eqn:E2.
+        destruct (gen_desc H parse_mt limit r rf false); [|discriminate]. injection X as <- <-. auto.
+      + destruct (man_resolve _ _ _ _ _ _ _ s1 rs) as [[s2 t2] res2] eqn:E2.
         intro X. injection X as _ <- X.
         destruct (man_resolve_shape _ _ _ _ _ E2) as [[d0 ->]|[e ->]]; [|discriminate].
-        injection X as <- <-.
+        destruct (verify_digest r (d_dg d0)) eqn:Ev; [|discriminate].
+        injection X as <- <-. apply verify_digest_spec in Ev.
         apply man_resolve_consistent in E2 as (rf' & q2 & r2 & ER' & -> & _ & Es2 & G).
         rewrite ER in ER'. injection ER' as <-.
         eexists rf, _, r, _. repeat (split; [reflexivity|]). split; [exact Es|]. split; [reflexivity|].
-        right. split; [exact Ec|]. eauto.
+        right. split; [exact Ec|]. split; [exact Ev|]. eauto.
+    - intro X. injection X as _ _ X. destruct (r_status r =? 404); discriminate.
+  Qed.
+
+  (* blob FetchReference: the descriptor is for the digest asked for, the body is the GET's,
+     and the GET's digest header does not contradict it -- also when the descriptor comes
+     from a second (HEAD) request because the GET has no Content-Length *)
+  Lemma blob_resolve_shape s rs s' t res :
+    blob_resolve parse_mt main srv exch s rs = (s', t, res) ->
+    (exists d, res = RDesc d) \/ (exists e, res = RErr e).
+  Proof using parse_mt main srv exch.
+    unfold blob_resolve. destruct (resolve_ref main rs) as [rf|]; [|intro X; injection X as _ _ <-; eauto].
+    destruct (negb (valid_digest rf)); [intro X; injection X as _ _ <-; eauto|].
+    destruct (exch s _) as [s1 r]. intro X. injection X as _ _ <-.
+    destruct (r_status r =? 200); [destruct (gen_blob_desc _ _ _); eauto|].
+    destruct (r_status r =? 404); unfold status_err; eauto.
+  Qed.
+
+  Theorem blob_fetchref_consistent s rs s' t d c :
+    blob_fetchref parse_mt main srv exch s rs = (s', t, RDescBytes d c) ->
+    exists rf q r rest, resolve_ref main rs = Some rf /\ valid_digest rf = true /\ t = (q, r) :: rest /\
+      r_status r = 200 /\ c = r_body r /\ d_dg d = rf /\ dig_consistent r rf.
+  Proof using parse_mt main srv exch.
+    unfold blob_fetchref. destruct (resolve_ref main rs) as [rf|] eqn:ER; [|discriminate].
+    destruct (valid_digest rf) eqn:V; cbn [negb]; [|discriminate].
+    destruct (exch s _) as [s1 r].
+    destruct (r_status r =? 200) eqn:Es.
+    - apply N.eqb_eq in Es. destruct (r_clen r) as [n|] eqn:Ec.
+      + intro X. injection X as _ <- X.
+        destruct (gen_blob_desc parse_mt r rf) eqn:Eg; [|discriminate]. injection X as <- <-.
+        apply gen_blob_desc_consistent in Eg as (A & B & C).
+        eexists rf, _, r, []. split; [reflexivity|]. split; [exact V|]. split; [reflexivity|]. auto.
+      + destruct (blob_resolve _ _ _ _ s1 rs) as [[s2 t2] res2] eqn:E2.
+        intro X. injection X as _ <- X.
+        destruct (blob_resolve_shape _ _ _ _ _ E2) as [[d0 ->]|[e ->]]; [|discriminate].
+        destruct (verify_digest r (d_dg d0)) eqn:Ev; [|discriminate].
+        injection X as <- <-. apply verify_digest_spec in Ev.
+        apply blob_resolve_consistent in E2 as (rf' & q2 & r2 & ER' & _ & _ & _ & Hd & _).
+        rewrite ER in ER'. injection ER' as <-. rewrite Hd in Ev.
+        eexists rf, _, r, _. split; [reflexivity|]. split; [exact V|]. split; [reflexivity|]. auto.
     - intro X. injection X as _ _ X. destruct (r_status r =? 404); discriminate.
   Qed.
 
@@ -575,13 +639,17 @@ Section Consistency.
   Theorem complete_push_consistent s r1 d c sized s' t :
     complete_push srv exch s r1 d c sized = (s', t, ROk) ->
     exists rp ep q r2, r_loc r1 = Some (rp, ep) /\ t = [(q, r2)] /\ r_status r2 = 201 /\
-                       q_repo q = rp /\ q_ep q = ep /\ q_digest q = Some (d_dg d) /\ q_body q = c.
+                       q_repo q = rp /\ q_ep q = ep /\ q_digest q = Some (d_dg d) /\ q_body q = c /\
+                       (* a well-formed digest header names the pushed blob *)
+                       (valid_digest (nstr (r_dig r2)) = true -> nstr (r_dig r2) = d_dg d).
   Proof.
     unfold complete_push. destruct (r_loc r1) as [[rp ep]|]; [|discriminate].
     destruct (sized && negb (len c =? d_sz d)); [discriminate|].
     destruct (exch s _) as [s2 r2]. intro X. injection X as _ <- X.
     destruct (r_status r2 =? 201) eqn:Es; [|discriminate]. apply N.eqb_eq in Es.
-    eexists rp, ep, _, r2. repeat (split; [reflexivity|]). split; [exact Es|]. cbn. auto.
+    destruct (valid_digest (nstr (r_dig r2)) && negb (str_eqb (nstr (r_dig r2)) (d_dg d))) eqn:Ed; [discriminate|].
+    eexists rp, ep, _, r2. repeat (split; [reflexivity|]). split; [exact Es|]. cbn. repeat split; auto.
+    intro V. rewrite V in Ed. cbn in Ed. apply negb_false_iff in Ed. now apply str_eqb_spec.
   Qed.
 
   Lemma blob_fetch_shape repo s d s' t res :
@@ -635,6 +703,7 @@ Definition contradicts_fetch (parse_mt : str -> option str) (manifest : bool) (k
   | KTypeOther => manifest = true /\ parse_mt (b "application/vnd.verif.other") <> Some (d_mt d)
   | KTypeGarbage => manifest = true /\ parse_mt (b "garbage/;=") = None
   | KTypeDrop => manifest = true /\ parse_mt [] = None
+  | KNameUnknown => True                         (* a 404 *)
   | KDigDrop | KLenDrop | KLocDrop => False      (* nothing the descriptor could contradict *)
   end.
 
@@ -656,6 +725,7 @@ Proof.
   - destruct Hc as [-> N1]. specialize (Hm eq_refl). congruence.
   - destruct Hc as [-> N1]. specialize (Hm eq_refl). congruence.
   - destruct Hc as [-> N1]. specialize (Hm eq_refl). congruence.
+  - discriminate Hs.
 Qed.
 
 Theorem blob_fetch_corrupted (srv : Type) repo (s : srv) k r0 d :
